@@ -7,6 +7,9 @@ export GOFLAGS=-mod=mod GOPROXY=off GOSUMDB=off GOTOOLCHAIN=local GODEBUG=goinde
 h="$1"; out="$2"; shift 2
 # INSTR_FLAGS=-wire-only: only the in-memory wire replaces the gRPC clients (free-running -race twins)
 w="${VERIF_WORK:-$PWD/.work/adhoc.$$}"; g="gen${INSTR_FLAGS:+.wire}"; mkdir -p "$w/$g"
-go build -o "$w/instr" ./instr
-"$w/instr" ${INSTR_FLAGS:-} -config instr/owned.json -out "$w/$g" -overlay "$w/overlay.$g.json"
+# INSTR_REUSE=1: a second harness of the same check invocation builds against the overlay generated a moment ago
+if [ -z "${INSTR_REUSE:-}" ] || [ ! -f "$w/overlay.$g.json" ]; then
+  go build -o "$w/instr" ./instr
+  "$w/instr" ${INSTR_FLAGS:-} -config instr/owned.json -out "$w/$g" -overlay "$w/overlay.$g.json"
+fi
 go build -tags verif -overlay "$w/overlay.$g.json" "$@" -o "$out" "./$h"
